@@ -6,10 +6,12 @@ require (
 	github.com/Jigsaw-Code/outline-sdk v0.0.14
 	github.com/Jigsaw-Code/outline-ss-server v0.0.0
 	github.com/shadowsocks/go-shadowsocks2 v0.1.5
+	golang.org/x/tools v0.16.0
 )
 
 require (
 	golang.org/x/crypto v0.17.0 // indirect
+	golang.org/x/mod v0.14.0 // indirect
 	golang.org/x/sys v0.16.0 // indirect
 )
 
